@@ -96,6 +96,15 @@ class Stats:
 
 def execute(mod, case, stats: Stats):
     """Run one case. Returns None, ('discard', reason) or ('violation', info)."""
+    if isinstance(case, dict) and "__sequence__" in case:
+        # a violation that only shows after earlier runs in the same process (hidden process-global state in the
+        # library): replay the whole run sequence of the chunk up to the failing run
+        q = case["__sequence__"]
+        r = None
+        for idx in range(q["start"], q["end"] + 1):
+            c = mod.gen_case(random.Random(run_seed(q["seed"], q["prop"], idx)), q["tier"])
+            r = execute(mod, c, stats)
+        return r
     reset_world()
     try:
         mod.run_case(case, stats)
@@ -211,14 +220,46 @@ def _chunk(args):
     memory of a chunk is returned to the system (the library leaks every loaded structure class: generated __init__
     code objects hold the default values, and code objects are invisible to the cycle collector)."""
     res = fork_call(_chunk_body, args)
-    if res is None:
-        raise RuntimeError(f"chunk starting at run {args[3]} died in its child process (crash or out of memory)")
-    return res
+    if res is not None:
+        return res
+    # The child died: crash, out of memory or the 300 s watchdog (a hang inside the library). Find the run that does it by
+    # executing the runs of the chunk one by one, each in its own child with a 120 s watchdog; a run that does not come
+    # back is reported as a violation of class liveness/run_did_not_finish with its (deterministic) case description.
+    prop, tier, seed, start, n, want_digest, _ = args
+    import_library()
+    mod = load_prop(prop)
+    agg = dict(c=Counter(), distinct=set(), distinct2=set(), samples=[], violations=[], digests={}, done=0)
+    dead = 0
+    for idx in range(start, start + n):
+        one = fork_call(_chunk_body, (prop, tier, seed, idx, 1, want_digest, None, 120))
+        if one is None:
+            dead += 1
+            rs = run_seed(seed, prop, idx)
+            case = mod.gen_case(random.Random(rs), tier)
+            agg["c"]["runs"] += 1
+            agg["c"]["runs_violating"] += 1
+            agg["violations"].append({"run_index": idx, "run_seed": rs, "case": case, "violation": {
+                "oracle": "liveness", "kind": "run_did_not_finish",
+                "detail": "the run crashed its process or did not finish within 120 s (runs of this check normally take milliseconds)"}})
+            agg["done"] += 1
+            if dead >= 2:
+                break
+            continue
+        agg["c"].update(one["c"])
+        agg["distinct"] |= one["distinct"]
+        agg["distinct2"] |= one["distinct2"]
+        agg["violations"].extend(one["violations"])
+        agg["digests"].update(one["digests"])
+        agg["done"] += one["done"]
+    if not dead:
+        raise RuntimeError(f"chunk starting at run {start} died in its child process but every single run of it finishes "
+                           "(out of memory or machine overload?)")
+    return agg
 
 
 def _chunk_body(args):
-    prop, tier, seed, start, n, want_digest, budget_deadline = args
-    faulthandler.dump_traceback_later(300, exit=True)
+    prop, tier, seed, start, n, want_digest, budget_deadline = args[:7]
+    faulthandler.dump_traceback_later(args[7] if len(args) > 7 else 300, exit=True)
     import_library()
     mod = load_prop(prop)
     stats = Stats(want_digest)
@@ -267,7 +308,7 @@ def class_key(v):
 def shrink(mod, case, vinfo, max_exec=400, max_s=30.0):
     """Greedy delta-debugging over module-provided candidate reductions; keeps a candidate only if the same
     violation class still fails."""
-    if not hasattr(mod, "shrink_candidates"):
+    if not hasattr(mod, "shrink_candidates") or vinfo.get("oracle") == "liveness":
         return case, vinfo, 0
     key = class_key(vinfo)
     t0 = time.monotonic()
@@ -309,7 +350,16 @@ def replay_file(prop, path):
     mod = load_prop(prop)
     with open(path) as f:
         rec = json.load(f)
-    r = execute(mod, rec["case"], Stats())
+    if rec.get("violation", {}).get("oracle") == "liveness":
+        # the recorded failure is a crash or hang: replay in a child with the same 120 s watchdog
+        def body():
+            faulthandler.dump_traceback_later(120, exit=True)
+            return execute(mod, rec["case"], Stats())
+        r = fork_call(body)
+        if r is None:
+            return rec["violation"]
+    else:
+        r = execute(mod, rec["case"], Stats())
     if r is not None and r[0] == "violation":
         return r[1]
     return None
@@ -318,7 +368,7 @@ def replay_file(prop, path):
 def verify_replay_in_subprocess(prop, path):
     env = dict(os.environ)
     p = subprocess.run([os.path.join(VERIF, "check"), prop, "--replay", path], capture_output=True, text=True,
-                       env=env, timeout=300)
+                       env=env, timeout=600)
     return p.returncode == 1 and f"VIOLATION property={prop}" in p.stdout
 
 
@@ -429,8 +479,21 @@ def run_check(prop: str, tier: str, seed: int) -> int:
             # minimised case does not reproduce in a fresh interpreter: fall back to the case as found
             path = write_replay(prop, seed, v["run_index"], v["case"], v["violation"], tag="-unminimised")
             if not verify_replay_in_subprocess(prop, path):
-                print(f"HARNESS-ERROR property={prop} violation at run {v['run_index']} did not replay from {path}: {vinfo}")
-                return 2
+                # still not: the failure needs the runs executed before it in the same process (hidden global state)
+                first = (v["run_index"] // chunk) * chunk
+                ok = False
+                for start in sorted({max(first, v["run_index"] - d) for d in (1, 2, 4, 8, 16, 32, 64, 128, 256, 512, 1024)}, reverse=True):
+                    seq = {"__sequence__": {"prop": prop, "seed": seed, "tier": tier, "start": start, "end": v["run_index"]}}
+                    vi = dict(v["violation"])
+                    vi["detail"] = ("[only after the runs %d..%d executed earlier in the same process: hidden process-global state] "
+                                    % (start, v["run_index"] - 1)) + vi.get("detail", "")
+                    path = write_replay(prop, seed, v["run_index"], seq, vi, tag="-sequence")
+                    if verify_replay_in_subprocess(prop, path):
+                        ok = True
+                        break
+                if not ok:
+                    print(f"HARNESS-ERROR property={prop} violation at run {v['run_index']} did not replay from {path}: {vinfo}")
+                    return 2
         printed.append(f"VIOLATION property={prop} replay={path}")
         print(f"  violation class={ck} detail={vinfo.get('detail','')[:300]}")
         exit_code = 1
